@@ -249,6 +249,161 @@ func doMarshal(c lib.Case) (lib.Out, any) {
 	return lib.Ok(), extra
 }
 
+// doOpts: the option operations behind SetOption / AddOption / RemoveOption on a
+// Subsection (several values) and, for single values, on a Section too.
+func doOpts(c lib.Case) (lib.Out, any) {
+	ss := &format.Subsection{Name: "x", Options: opts(c.L("os"))}
+	sec := &format.Section{Name: "x", Options: opts(c.L("os"))}
+	secOK := true
+	for _, x := range c.L("ops") {
+		oc := lib.AsCase(x)
+		k := string(oc.B("k"))
+		vs := strs(oc, "vs")
+		switch oc.S("kind") {
+		case "set":
+			ss.SetOption(k, vs...)
+			if len(vs) == 1 {
+				sec.SetOption(k, vs[0])
+			} else {
+				secOK = false
+			}
+		case "add":
+			ss.AddOption(k, vs[0])
+			sec.AddOption(k, vs[0])
+		default:
+			ss.RemoveOption(k)
+			sec.RemoveOption(k)
+		}
+	}
+	list := func(os format.Options) lib.Out {
+		var l []lib.Out
+		for _, o := range os {
+			l = append(l, lib.List(lib.Str(o.Key), lib.Str(o.Value)))
+		}
+		return lib.List(l...)
+	}
+	var reads []lib.Out
+	for _, h := range c.SL("reads") {
+		k := string(lib.Unhex(h))
+		var all []lib.Out
+		for _, v := range ss.OptionAll(k) {
+			all = append(all, lib.Str(v))
+		}
+		reads = append(reads, lib.List(lib.Str(ss.Option(k)), lib.List(all...)))
+	}
+	if secOK && lib.Render(list(sec.Options)) != lib.Render(list(ss.Options)) {
+		return lib.Err("section_differs_from_subsection"), nil
+	}
+	return lib.Ok(list(ss.Options), lib.List(reads...)), nil
+}
+
+func has(c lib.Case, k string) bool { _, ok := c[k]; return ok }
+
+// doRMW: Unmarshal a file, change some typed fields, Marshal, read back.
+func doRMW(c lib.Case) (lib.Out, any) {
+	cfg := config.NewConfig()
+	if err := cfg.Unmarshal(c.B("file")); err != nil {
+		return lib.Err("unmarshal"), map[string]any{"err": err.Error()}
+	}
+	before := observe(cfg)
+	m := c.M("mut")
+	if has(m, "bare") {
+		cfg.Core.IsBare = m.Bool("bare")
+	}
+	if has(m, "filemode") {
+		cfg.Core.FileMode = m.Bool("filemode")
+	}
+	if has(m, "worktree") {
+		cfg.Core.Worktree = string(m.B("worktree"))
+	}
+	if has(m, "autocrlf") {
+		cfg.Core.AutoCRLF = string(m.B("autocrlf"))
+	}
+	if has(m, "hookspath") {
+		cfg.Core.HooksPath = string(m.B("hookspath"))
+	}
+	if has(m, "uname") {
+		cfg.User.Name = string(m.B("uname"))
+	}
+	if has(m, "uemail") {
+		cfg.User.Email = string(m.B("uemail"))
+	}
+	if has(m, "defaultbranch") {
+		cfg.Init.DefaultBranch = string(m.B("defaultbranch"))
+	}
+	if has(m, "window") {
+		cfg.Pack.Window = uint(m.U("window"))
+	}
+	for _, x := range m.L("remotes") {
+		rc := lib.AsCase(x)
+		name := string(rc.B("name"))
+		r := cfg.Remotes[name]
+		if r == nil {
+			r = &config.RemoteConfig{Name: name}
+			cfg.Remotes[name] = r
+		}
+		if has(rc, "urls") {
+			r.URLs = strs(rc, "urls")
+		}
+		if has(rc, "fetch") {
+			r.Fetch = nil
+			for _, f := range strs(rc, "fetch") {
+				r.Fetch = append(r.Fetch, config.RefSpec(f))
+			}
+		}
+		if has(rc, "mirror") {
+			r.Mirror = rc.Bool("mirror")
+		}
+	}
+	for _, x := range m.L("branches") {
+		bc := lib.AsCase(x)
+		name := string(bc.B("name"))
+		b := cfg.Branches[name]
+		if b == nil {
+			b = &config.Branch{Name: name}
+			cfg.Branches[name] = b
+		}
+		if has(bc, "remote") {
+			b.Remote = string(bc.B("remote"))
+		}
+		if has(bc, "merge") {
+			b.Merge = plumbing.ReferenceName(bc.B("merge"))
+		}
+		if has(bc, "rebase") {
+			b.Rebase = string(bc.B("rebase"))
+		}
+		if has(bc, "description") {
+			b.Description = string(bc.B("description"))
+		}
+	}
+	for _, x := range m.L("urls") {
+		uc := lib.AsCase(x)
+		name := string(uc.B("name"))
+		found := false
+		for _, u := range cfg.URLs {
+			if u.Name == name {
+				u.InsteadOfs = strs(uc, "insteadof")
+				found = true
+			}
+		}
+		if !found {
+			cfg.URLs = append(cfg.URLs, &config.URL{Name: name, InsteadOfs: strs(uc, "insteadof")})
+		}
+	}
+	b, err := cfg.Marshal()
+	if err != nil {
+		return lib.Err("marshal"), map[string]any{"err": err.Error()}
+	}
+	extra := map[string]any{"bytes": hex.EncodeToString(b), "before": before}
+	back := config.NewConfig()
+	if err := back.Unmarshal(b); err != nil {
+		extra["readback_err"] = err.Error()
+	} else {
+		extra["readback"] = observe(back)
+	}
+	return lib.Ok(), extra
+}
+
 func main() {
 	lib.Main(func(c lib.Case) (lib.Out, any) {
 		switch c.S("op") {
@@ -260,6 +415,10 @@ func main() {
 			return doInterp(c)
 		case "marshal":
 			return doMarshal(c)
+		case "opts":
+			return doOpts(c)
+		case "rmw":
+			return doRMW(c)
 		}
 		return lib.Err("op"), nil
 	})
